@@ -1451,7 +1451,7 @@ class ConfigInformation:
                 return Path(value["value"])
 
             if value["type"] == "path.serialized":
-                return SerializedPath(value["value"], value["is_folder"])
+                return SerializedPath(Path(value["value"]), value["is_folder"])
 
             if value["type"] == "enum":
                 module = importlib.import_module(value["module"])
